@@ -14,7 +14,8 @@ EXPLANATION = (
     "worker (R-LEAK, R-SHUTDOWN-SEQ); every worker removed from the table (pid branch, kill path, join-all) is joined or "
     "tree-killed-and-joined on every path; kill-tree reaps in both implementations (R-KILL-TREE); os.pipe() ends in the launch, "
     "the tracker start and fork_exec are closed or owned on all paths, the sentinel has a closing finaliser (R-SPAWN-FRESH, "
-    "R-EXITCODE, R-RELAUNCH); shutdown() drops its fd-holding references. Not decided: measured counts over repeated "
+    "R-EXITCODE, R-RELAUNCH); shutdown() drops its fd-holding references; no live exception of the feeder / manager thread "
+    "(whose frames reference the call queue) is handed to a future (R-LIVE-EXC). Not decided: measured counts over repeated "
     "lifecycles. With the known finding D4 the releasing paths exist but are not reached; that is reported under C01/C05/C07."
 )
 
@@ -34,4 +35,5 @@ def run(e, R, tier):
         T.r_relaunch,
         SC.r_scn_wakeprim,
         C.r_feeder,
+        C.r_live_exc,
     ])
